@@ -178,6 +178,7 @@ type Result struct {
 	Probes    map[string]int
 	Faults    map[string]int
 	LockHeld  []string
+	MapSites  map[string]int // map-range sites that used a non-sorted order, with counts
 }
 
 type TaskInfo struct {
@@ -1063,7 +1064,7 @@ func (s *Sim) finish() *Result {
 	res := &Result{
 		Outcome: s.outcome, Detail: s.detail, Sig: s.sig,
 		Choices: s.choices, Decisions: s.decisions, Switches: s.switches, Steps: s.steps,
-		SimTime: time.Since(s.start), Probes: s.Probes, Faults: s.Faults,
+		SimTime: time.Since(s.start), Probes: s.Probes, Faults: s.Faults, MapSites: s.mapSitesHit,
 	}
 	if res.Outcome == "" {
 		res.Outcome = "ok"
